@@ -49,6 +49,8 @@ struct Family {
 
 struct FamilyModel : public AdditiveMeasurementModel {
     Family f; MatrixXd R, y; long n, m;
+    long nc = 0;     // trailing circular (Euler) rows of the state
+    long mc = 0;     // trailing circular (Euler) rows of the measurement description
     long m_report;   // the measurement size the model reports (harness switch for the second, mismatching, step)
     mutable long noise_calls = 0;
     FamilyModel(const Family& f_, const MatrixXd& R_, const MatrixXd& y_, long n_, long m_) : f(f_), R(R_), y(y_), n(n_), m(m_), m_report(m_) {}
@@ -63,8 +65,8 @@ struct FamilyModel : public AdditiveMeasurementModel {
         return std::make_pair(true, Data(std::move(innovation)));
     }
     std::pair<bool, MatrixXd> getNoiseCovarianceMatrix() const override { noise_calls++; return std::make_pair(true, R); }
-    VectorDescription getInputDescription() const override { return VectorDescription(n, 0, m); }
-    VectorDescription getMeasurementDescription() const override { return VectorDescription(m_report); }
+    VectorDescription getInputDescription() const override { return VectorDescription(n - nc, nc, m); }
+    VectorDescription getMeasurementDescription() const override { return VectorDescription(m_report - mc, mc); }
 };
 
 struct Step {
@@ -84,22 +86,22 @@ static Step load(const vf::Case& c, const std::string& suf) {
 static void program(FamilyModel* mp, const Step& st, const MatrixXd& R) {
     mp->f = st.fam; mp->R = R; mp->y = st.y; mp->m = st.fam.H.rows(); mp->m_report = mp->m;
 }
-static GaussianMixture belief(const Step& st) {
-    GaussianMixture pred(st.means.cols(), st.means.rows());
+static GaussianMixture belief(const Step& st, long nc) {
+    GaussianMixture pred(st.means.cols(), st.means.rows() - nc, nc);
     pred.mean() = st.means; pred.covariance() = st.covs; pred.weight() = st.weights;
     return pred;
 }
-static GaussianMixture filler(long comps, long n) {
-    GaussianMixture corr(comps, n);
+static GaussianMixture filler(long comps, long n, long nc) {
+    GaussianMixture corr(comps, n - nc, nc);
     corr.mean().setConstant(7.25); corr.covariance().setConstant(-3.5); corr.weight().setConstant(0.125);
     return corr;
 }
 
 // one correct() + getLikelihood() of an existing SUKFCorrection whose model has been programmed for this call
-static void call_sukf(const std::string& pre, SUKFCorrection& sukf, FamilyModel* mp, const GaussianMixture& pred, long s, bool second) {
-    const long n = pred.dim, comps = pred.components, m = mp->m;
+static void call_sukf(const std::string& pre, SUKFCorrection& sukf, FamilyModel* mp, const GaussianMixture& pred, long s, bool second, long outcomps) {
+    const long n = pred.dim, comps = pred.components, m = mp->m, nc = mp->nc;
     GaussianMixture pred_copy(pred);
-    GaussianMixture corr = filler(comps, n);
+    GaussianMixture corr = filler(outcomps, n, nc);
     {
         vf::Entry e("SUKFCorrection::correct");
         sukf.freeze_measurements();
@@ -125,7 +127,7 @@ static void call_sukf(const std::string& pre, SUKFCorrection& sukf, FamilyModel*
     // output = input, and no likelihood may be reported (the first call's innovations must not survive)
     if (second && s >= 2 && m % s == 0) {
         mp->m_report = m + 1;
-        GaussianMixture corr2 = filler(comps, n);
+        GaussianMixture corr2 = filler(comps, n, nc);
         { vf::Entry e("SUKFCorrection::correct#2"); sukf.correct(pred, corr2); }
         bool ok2; VectorXd lik2;
         { vf::Entry e("SUKFCorrection::getLikelihood#2"); std::tie(ok2, lik2) = sukf.getLikelihood(); }
@@ -136,9 +138,9 @@ static void call_sukf(const std::string& pre, SUKFCorrection& sukf, FamilyModel*
     }
 }
 
-static void call_ukf(const std::string& pre, UKFCorrection& ukf, const GaussianMixture& pred) {
+static void call_ukf(const std::string& pre, UKFCorrection& ukf, const GaussianMixture& pred, long nc, long outcomps) {
     const long n = pred.dim, comps = pred.components;
-    GaussianMixture corr = filler(comps, n);
+    GaussianMixture corr = filler(outcomps, n, nc);
     {
         vf::Entry e("UKFCorrection::correct");
         ukf.freeze_measurements();
@@ -166,8 +168,16 @@ int main() {
         const long n = steps[0].means.rows(), s = c.integer("s");
         bool all_block = true;
         for (auto& st : steps) all_block = all_block && st.has_block;
+        // optional layout / shape variations (single-call cases)
+        const long nc = c.has_int("nc") ? c.integer("nc") : 0, mc = c.has_int("mc") ? c.integer("mc") : 0;
+        const long outcomps = c.has_int("outcomps") ? c.integer("outcomps") : -1;
 
         vf::out_begin(c.id);
+#ifdef NDEBUG
+        // an output object with FEWER components than the predicted belief is written out of bounds:
+        // only run where Eigen's assertions are on (they end the process with the redirected assert)
+        if (outcomps >= 0 && outcomps < (long)steps[0].means.cols()) { vf::out_int("skipped", 1); vf::out_end(); continue; }
+#endif
         // unscented weights as the library computes them
         {
             vf::Entry e("UTWeight");
@@ -185,12 +195,14 @@ int main() {
         mpf = new FamilyModel(s0.fam, s0.Rfull, s0.y, n, s0.fam.H.rows());
         sukf_f.reset(new SUKFCorrection(std::unique_ptr<AdditiveMeasurementModel>(mpf), alpha, beta, kappa, s, false));
         mpu = new FamilyModel(s0.fam, s0.Rfull, s0.y, n, s0.fam.H.rows());
+        for (FamilyModel* mp : {mpr, mpf, mpu}) if (mp) { mp->nc = nc; mp->mc = mc; }
         UKFCorrection ukf(std::unique_ptr<AdditiveMeasurementModel>(mpu), alpha, beta, kappa);
 
         for (long t = 1; t <= T; t++) {
             const Step& st = steps[t - 1];
             const std::string tp = seq ? "t" + std::to_string(t) + "_" : "";
-            GaussianMixture pred = belief(st);
+            GaussianMixture pred = belief(st, nc);
+            const long oc = outcomps >= 0 ? outcomps : (long)pred.components;
             // the SVD factor sigma_point() uses (same Eigen call; the model takes it as its square-root oracle)
             for (long i = 0; i < (long)pred.components; i++) {
                 MatrixXd P = pred.covariance(i);
@@ -198,9 +210,9 @@ int main() {
                 MatrixXd A = svd.matrixU() * svd.singularValues().cwiseSqrt().asDiagonal();
                 vf::out_mat(tp + "A" + std::to_string(i), A);
             }
-            if (all_block) { program(mpr, st, st.Rblock); call_sukf(tp + "r_", *sukf_r, mpr, pred, s, !seq); }
-            program(mpf, st, st.Rfull); call_sukf(tp + "f_", *sukf_f, mpf, pred, s, !seq);
-            program(mpu, st, st.Rfull); call_ukf(tp, ukf, pred);
+            if (all_block) { program(mpr, st, st.Rblock); call_sukf(tp + "r_", *sukf_r, mpr, pred, s, !seq, oc); }
+            program(mpf, st, st.Rfull); call_sukf(tp + "f_", *sukf_f, mpf, pred, s, !seq, oc);
+            program(mpu, st, st.Rfull); call_ukf(tp, ukf, pred, nc, oc);
         }
         vf::out_end();
     }
